@@ -114,4 +114,18 @@ def prepare(fa, raw):
     out = [Case(raw, copy.deepcopy(raw), node, defs, "raw")]
     parsed = fa.parse_schema(copy.deepcopy(raw))
     out.append(Case(raw, parsed, node, defs, "parsed"))
+    if isinstance(raw, list) and any(isinstance(b, dict) and b.get("type") == "record" for b in raw):
+        # a top-level union handed over as a list whose record branches were each parsed on their own
+        try:
+            each = []
+            standalone = True
+            for b in raw:
+                if isinstance(b, dict) and b.get("type") == "record":
+                    each.append(fa.parse_schema(copy.deepcopy(b)))
+                else:
+                    each.append(copy.deepcopy(b))
+            names.resolve([copy.deepcopy(b) for b in raw])
+            out.append(Case(raw, each, node, defs, "parsed-each"))
+        except Exception:
+            pass  # a branch refers to a type of another branch: cannot be parsed alone
     return out
